@@ -266,6 +266,12 @@ class WMSServer(Server):
         return Response(resp, mimetype=mimetype)
 
     def check_map_request(self, request):
+        size = request.params.size
+        if size is not None and (size[0] <= 0 or size[1] <= 0):
+            # (the product of two negative values is within every limit)
+            request.prevent_image_exception = True
+            raise RequestError("invalid image size", request=request)
+
         if self.max_output_pixels and \
                 (request.params.size[0] * request.params.size[1]) > self.max_output_pixels:
             request.prevent_image_exception = True
